@@ -28,6 +28,8 @@ pub struct ClusterCfg {
     /// Consensus-only nodes: a feeder task plays the mempools (writes fresh batches into every
     /// node's store, then hands the digest to one node's proposer), so that blocks carry payloads.
     pub feed_payload: bool,
+    /// (node, delay in ms): consensus of that node is only spawned after the delay (late boot).
+    pub boot_delays: Vec<(usize, u64)>,
 }
 
 impl ClusterCfg {
@@ -45,6 +47,7 @@ impl ClusterCfg {
             mempool_sync_retry_ms: 2_000,
             gc_depth: 50,
             feed_payload: true,
+            boot_delays: Vec::new(),
         }
     }
 }
@@ -163,16 +166,23 @@ impl Cluster {
             let (tx_m2c, rx_m2c) = channel(1_000);
             let (tx_commit, mut rx_commit) = channel::<Block>(1_000);
             tokio::spawn(async move { while rx_c2m.recv().await.is_some() {} });
-            Consensus::spawn(
+            let delay = cfg.boot_delays.iter().find(|(n, _)| *n == i).map(|x| x.1).unwrap_or(0);
+            let (name, committee, params, store2) = (
                 topo.names[i],
                 topo.consensus_committee(i),
                 CParameters { timeout_delay: cfg.timeout_ms, sync_retry_delay: cfg.sync_retry_ms },
-                signature_service,
                 store.clone(),
-                rx_m2c,
-                tx_c2m,
-                tx_commit,
             );
+            if delay == 0 {
+                Consensus::spawn(name, committee, params, signature_service, store2, rx_m2c, tx_c2m, tx_commit);
+            } else {
+                // late boot: the node's consensus (and with it its round timer) starts later
+                tokio::spawn(async move {
+                    tokio::time::sleep(tokio::time::Duration::from_millis(delay)).await;
+                    evlog::note(format!("late boot of node {}", i));
+                    Consensus::spawn(name, committee, params, signature_service, store2, rx_m2c, tx_c2m, tx_commit);
+                });
+            }
             tokio::spawn(async move {
                 while let Some(block) = rx_commit.recv().await {
                     evlog::push(Kind::App { node: i, block });
